@@ -50,15 +50,15 @@ def main():
         meta["checks"] = {}
         for check in checks:
             t0 = time.time()
-            run = sh(f"VP_REPO={wt} ./check {check} --tier quick", cwd=str(VERIF))
+            out_dir = f"/tmp/vpout_{seed_id}"
+            run = sh(f"VP_REPO={wt} VP_OUT={out_dir} ./check {check} --tier quick", cwd=str(VERIF))
+            shutil.rmtree(out_dir, ignore_errors=True)
             lines = [l for l in run.stdout.splitlines() if l.startswith(("VIOLATION", "FAIL"))]
             meta["checks"][check] = {
                 "exit": run.returncode, "wall_s": round(time.time() - t0, 1),
                 "violations": len([l for l in lines if l.startswith("VIOLATION")]),
                 "first_fail": next((l[:300] for l in lines if l.startswith("FAIL")), None),
             }
-            # replays written by a mutant run are not evidence about the unchanged tree
-            shutil.rmtree(VERIF / "replays" / check, ignore_errors=True)
         dest = VERIF / "seeded" / seed_id
         dest.mkdir(parents=True, exist_ok=True)
         for name in ("patch.diff", "demo.py", "notes.md"):
